@@ -7,7 +7,11 @@
 
    Vocabulary:
      state          (bucket, content of thanos.shipper.json or None)
-     cfg            one Sync call: block directories present, upload-compacted,
+     cfg            one Sync call: block directories present, the external labels CURRENT AT THAT
+                    SYNC (c_lbl: the value the owner's label callback returns when Shipper.upload
+                    calls it; Gen/C35.v pins that New stores the callback itself in Shipper.labels
+                    and that upload reads `s.labels()`; the harness keeps one Shipper object alive
+                    over several syncs while the callback's value changes), upload-compacted,
                     allow-out-of-order, external labels, ONE fault (crash before
                     bucket operation k / operation k fails once; Exists calls count;
                     k = number of operations: death before the meta file is written)
@@ -32,7 +36,8 @@ From Verif Require Import Gen.C35 Model.C35 Proofs.C35 Proofs.C35_wedge.
 (* One Sync from any good state, with any fault: every bucket state it passes
    through satisfies the block invariant (so C28 holds at each of its crash
    points); if it returns nil, every eligible local block is published; every
-   meta.json it uploads carries the current external labels; the state stays good. *)
+   meta.json it uploads carries the external labels current at THIS sync (not those of an
+   earlier sync or of the construction of the Shipper); the state stays good. *)
 Theorem C35_sync_complete : forall U L c st res,
   wf_univ U -> good U st -> sync U L c (snd st) (fst st) = Some res ->
   (forall b', In b' (bstates (fst st) (r_ops res)) -> binv U b')
